@@ -80,6 +80,7 @@ import (
 	"fmt"
 	"math"
 	"os"
+	"runtime/debug"
 	"sort"
 	"strings"
 	"sync"
@@ -111,6 +112,7 @@ const (
 	vC17K             = 20 // bucket size of the simulated closest-peers router
 	vC17Interval      = time.Hour
 	vC17MaxDelay      = 5 * time.Minute
+	vC17RetryTick     = 5 * time.Minute // provider.go retryInterval
 	vC17ProvideBound  = 30 * time.Minute
 	vC17CatchUpBound  = 30 * time.Minute
 	vC17SlackBase     = 2 * time.Minute
@@ -288,6 +290,8 @@ type vC17Sim struct {
 	r    int
 	salt uint64
 
+	lateStacks []string // guarded by mu
+
 	deadPct            int
 	routerLat, sendLat atomic.Int64 // max injected latency (ns)
 
@@ -329,9 +333,10 @@ type vC17Sim struct {
 	apiErr    []string
 	capHits   []vC17CapHit
 
-	outage   atomic.Bool
-	closing  atomic.Bool
-	inflight atomic.Int64
+	outage       atomic.Bool
+	closing      atomic.Bool
+	inflight     atomic.Int64
+	sendInflight atomic.Int64 // ADD_PROVIDER RPCs in flight
 
 	busyMu    sync.Mutex
 	busyN     int
@@ -463,6 +468,8 @@ func (s *vC17Sim) SendRequest(ctx context.Context, p peer.ID, m *pb.Message) (*p
 func (s *vC17Sim) SendMessage(ctx context.Context, p peer.ID, m *pb.Message) error {
 	s.enter()
 	defer s.leave()
+	s.sendInflight.Add(1)
+	defer s.sendInflight.Add(-1)
 	key := string(m.GetKey())
 	pi, known := s.pool.peerIdx[string(p)]
 	if d := s.lat(time.Duration(s.sendLat.Load()), key, pi); d > 0 {
@@ -527,6 +534,12 @@ func (s *vC17Sim) SendMessage(ctx context.Context, p peer.ID, m *pb.Message) err
 		s.flakyLast[job] = flaky
 	}
 	s.sends[ki] = append(s.sends[ki], vC17Send{t: now, peer: pi, epoch: int32(len(s.epochs) - 1), ok: ok, flaky: flaky})
+	// witness: who sends a key that was stopped more than 10 minutes ago (first three)
+	if m := s.model[ki]; m != nil && len(m.segs) > 0 && len(s.lateStacks) < 3 {
+		if sg := m.segs[len(m.segs)-1]; sg.stopped && !sg.open && now > sg.e+10*time.Minute {
+			s.lateStacks = append(s.lateStacks, fmt.Sprintf("+%v key %s stopped at +%v sent by:\n%s", now, vC17Bits(&s.pool.keys[ki].kad, 16), sg.e, debug.Stack()))
+		}
+	}
 	if flaky {
 		s.nSendFlaky++
 		return errors.New("vC17 sim: stream reset")
@@ -983,6 +996,7 @@ func (s *vC17Sim) noteMerges(t time.Duration, before, after []string) {
 type vC17Verdict struct {
 	capFail                                                 int
 	provideJudged, windowsJudged, stopJudged, catchupJudged int
+	stopChained                                             int // stopped keys whose in-flight provide batch was retried beyond the grace
 	allocFail, gapFail, provFail, stopFail, catchFail       int
 }
 
@@ -1110,14 +1124,52 @@ func (s *vC17Sim) evaluate(end time.Duration, windows bool) vC17Verdict {
 					}
 				}
 				v.stopJudged++
+				// "not re-advertised in LATER CYCLES". Work of the current cycle that was in flight when the stop arrived may
+				// still complete: a provide batch that fails puts its keys back (failedProvide) and is retried on the 5-minute
+				// retry tick, again and again while the region keeps failing - a chain of sends at most one retry interval
+				// (+ slack, + outages) apart that starts within the grace after the stop. Judged:
+				//  (a) a send later than the grace that does not continue such a chain (the periodic reprovide of a later
+				//      cycle, or anything else that picks the key up again), and
+				//  (b) any send later than a whole interval + allowed delay + slack after the stop: whatever its origin, that
+				//      is a later cycle.
+				grace := slack + 10*time.Minute
+				chainEnd := sg.e + grace // latest instant up to which a retry of in-flight work continues the chain
+				lastChain := sg.e
+				chained := 0
 				for _, sd := range s.sends[k] {
-					// "not re-advertised in LATER CYCLES": a batch that was in flight when the stop arrived may fail and be
-					// retried once on the provider's 5-minute retry tick (failedProvide puts its keys back), within the
-					// allowed delay of the current cycle; only sends later than that are re-advertisements
-					if sd.t > sg.e+slack+10*time.Minute && sd.t < until {
-						report(&v.stopFail, "stop", "stop/readvertised", "key %s… stopped at +%v, ADD_PROVIDER to peer %x at +%v (slack %v)", vC17Bits(&s.pool.keys[k].kad, 16), sg.e.Round(time.Millisecond), s.pool.peers[sd.peer].raw[:6], sd.t.Round(time.Millisecond), slack)
-						break
+					if sd.t <= sg.e || sd.t >= until {
+						continue
 					}
+					if fr := s.free(lastChain, sd.t); sd.t <= chainEnd || len(fr) != 1 || fr[0] != [2]time.Duration{lastChain, sd.t} { // an outage between two retries pauses the chain
+						lastChain = sd.t
+						if sd.t > sg.e+grace {
+							chained++
+						}
+						if sd.t+vC17RetryTick+slack > chainEnd {
+							chainEnd = sd.t + vC17RetryTick + slack
+						}
+						if sd.t <= sg.e+W {
+							continue
+						}
+					}
+					var after []string
+					for _, x := range s.sends[k] {
+						if x.t > sg.e && x.t < until && len(after) < 40 {
+							after = append(after, fmt.Sprintf("+%v->%x(ok=%v)", x.t.Round(time.Second), s.pool.peers[x.peer].raw[:3], x.ok))
+						}
+					}
+					c.Logf("sends of the stopped key after the stop: %v", after)
+					sig, what := "stop/readvertised", "outside any retry of work in flight at the stop"
+					if sd.t > sg.e+W && chained > 0 {
+						sig, what = "stop/readvertised/retry-chain-into-later-cycle", fmt.Sprintf("more than interval + max delay + slack = %v after the stop, after %d chained retries", W, chained)
+					} else if sd.t > sg.e+W {
+						what = fmt.Sprintf("more than interval + max delay + slack = %v after the stop", W)
+					}
+					report(&v.stopFail, "stop", sig, "key %s… stopped at +%v, ADD_PROVIDER to peer %x at +%v (%s; slack %v)\n%s", vC17Bits(&s.pool.keys[k].kad, 16), sg.e.Round(time.Millisecond), s.pool.peers[sd.peer].raw[:6], sd.t.Round(time.Millisecond), what, slack, strings.Join(s.lateStacks, "\n"))
+					break
+				}
+				if chained > 0 {
+					v.stopChained++
 				}
 			}
 			if !windows {
@@ -1218,6 +1270,7 @@ func (s *vC17Sim) evaluate(end time.Duration, windows bool) vC17Verdict {
 	c.ClauseN(s.provideClause, v.provideJudged)
 	c.ClauseN("reprovide-window", v.windowsJudged)
 	c.ClauseN("stop", v.stopJudged)
+	c.Obs("stopped_keys_retried_beyond_grace", v.stopChained)
 	c.ClauseN("catch-up", v.catchupJudged)
 	c.Obs("keys", len(keys))
 	c.Obs("provide_obligations_judged", v.provideJudged)
